@@ -17,6 +17,7 @@ mod sim;
 mod sublife;
 mod subrace;
 mod updwalk;
+mod updorder;
 mod syncneeds;
 
 fn main() {
@@ -67,6 +68,7 @@ fn main() {
             }
             "pool-stress" => poolstress::run(args[2].parse().unwrap(), args[3].parse().unwrap(), &args[4]).await,
             "sub-race" => subrace::run(args[2].parse().unwrap(), args[3].parse().unwrap(), args[4].parse().unwrap(), &args[5]).await,
+            "upd-order" => updorder::run(&args[2]).await,
             "updates-walk" => updwalk::run(args[2].parse().unwrap(), args[3].parse().unwrap(), args[4].parse().unwrap(), &args[5]).await,
             "matcher-walk" => matchwalk::run(args[2].parse().unwrap(), &args[3], args[4].parse().unwrap(), &args[5]).await,
             "sub-life" => sublife::run(args[2].parse().unwrap(), &args[3], args[4].parse().unwrap(), &args[5]).await,
